@@ -153,6 +153,8 @@ class EditRun:
                     pl.finish()
                 except Violation as v:
                     self.viol = {'kind': v.kind, 'step': len(self.ops), 'detail': v.detail, 'op': None}
+                    if hasattr(pl, 'extra_sig'):
+                        self.viol.update(pl.extra_sig())
                 except StopRun:
                     pass
         finally:
@@ -392,6 +394,12 @@ class Plugin:
         cfg['base_opts'] = {'norm': True}
         cfg['opt_rate'] = rng.choice([0.0, 0.3, 0.6])
         cfg['p_same_cat'] = rng.choice([0.7, 0.85, 0.95])
+        if rng.random() < 0.5:  # swarm: half of the runs use a random re-weighting of the edit kinds (some switched off)
+            from .ops import DEFAULT_WEIGHTS
+            w = {k: v * rng.choice([0, 0, 1, 1, 4]) for k, v in sorted(DEFAULT_WEIGHTS.items())}
+            if not any(w.values()):
+                w = dict(DEFAULT_WEIGHTS)
+            cfg['weights'] = w
         return cfg
 
     def program(self, rng, cfg):
